@@ -1838,10 +1838,10 @@ func (query *Query) exec() (result any, err error) {
 		rs = nil
 		goto FINALIZE
 	}
-	if limit >= len(rs) {
-		limit = len(rs)
+	rs = rs[offset:]
+	if limit < len(rs) {
+		rs = rs[:limit]
 	}
-	rs = rs[offset:][:limit]
 FINALIZE:
 	verifStage(query, "window", rs)
 	if query.options.completed != nil {
